@@ -83,7 +83,7 @@ pub fn run(cx: &mut Ctx) {
 
     // exhaustive small scope: inputs 0..=5 rows x every combiner x every fan-out x partitions 1..6
     let fanouts = [None, Some(0), Some(1), Some(2), Some(3), Some(7)];
-    let maxn = cx.budget(5, 7);
+    let maxn = size_for(cx, 5, 7);
     let mut n_ex = 0;
     for n in 0..=maxn {
         let src: Vec<V> = (0..n as i64).map(|i| V::I((i * 7 + 3) % 5)).collect();
